@@ -68,7 +68,8 @@ class World:
             changes += [[t0, mi, 'fast-on', rng.choice([0.1, 0.5])], [t0 + rng.choice([3, 10]), mi, 'interval', rng.choice([0.5, 2, 3, 10])],
                         [t0 + rng.choice([15, 30]), mi, 'fast-off', 0]]
         changes.sort()
-        return {'mods': mods, 'shared': shared, 'changes': changes, 'T': T, 'rngseed': rng.randrange(1 << 30)}
+        unpolled_writer = shared and rng.random() < 0.4
+        return {'mods': mods, 'shared': shared, 'changes': changes, 'T': T, 'rngseed': rng.randrange(1 << 30), 'unpolled_writer': unpolled_writer}
 
     def run(self, scen):
         r, D, C, E = self.r, self.D, self.C, self.E
@@ -134,6 +135,15 @@ class World:
             if scen['shared']:
                 c['io'] = 'io'
             cfg[name] = c
+        if scen['shared'] and scen.get('unpolled_writer'):
+            # a module without polling that rides on the shared poll thread only for its configured start-up write
+            def write_gain(self, v):
+                LOG.append((D.CURRENT.now, 'unpolled', 'write_gain'))
+                return v
+            cfg['unpolled'] = {'cls': type('P13_unpolled', (C.Module,), {'__module__': __name__, 'enablePoll': False, 'io': C.Attached(),
+                                                                           'gain': C.Parameter('gain', C.FloatRange(), readonly=False, default=1.0),
+                                                                           'write_gain': write_gain}),
+                               'description': 'unpolled', 'io': 'io', 'gain': {'value': 2.5}}
         info = {}
 
         def root():
